@@ -10,7 +10,7 @@ import GB.C05.Pipeline
              kind  = get|put|post|delete|patch|none|c:<verb>        "-" = empty string
              poll  = <v1 mode>,<v1alpha mode>|<listed hex,…>|<policy text (Go side only)>
              mode  = ok | u… (answers Unimplemented somewhere) | x… (fails with another code)
-  output:  per poll:  poll  S=<v1|v1a>:<ok|eNN>  E=<req>><ans> …  R=<result>
+  output:  per poll:  poll  S=<v1|v1a>:<ok|eNN>  [Z=eof: the ListServices Send returned io.EOF]  E=<req>><ans> …  R=<result>
              req = l | s:<name> | f:<name>      ans = L:<hex,…> | F:<id,…> | G:<id,…> | eNN | rNN | oN
              id  = file name (own file) or @k (k-th alien file)
              result = ok:<file,…>#<svc;…> | none | err:<code>
@@ -159,6 +159,8 @@ structure StreamTr where
   v : Version
   connErr : Option Nat
   events : List Event
+  /-- what the Send of the ListServices request returned (`Z=eof`: io.EOF) -/
+  listSend : SendRes := .ok
 
 structure PollOut where
   streams : List StreamTr
@@ -222,6 +224,10 @@ def parseOutput (inp : Input) (fields : List String) : Except String (List PollO
           | some q', some a', last :: before =>
             cur := some { p with streams := before.reverse ++ [{ last with events := last.events ++ [(q', a')] }] }
           | _, _, _ => throw s!"event {v}"
+        else if k == "Z" then
+          match p.streams.reverse with
+          | last :: before => cur := some { p with streams := before.reverse ++ [{ last with listSend := .eof }] }
+          | [] => throw "Z before S"
         else if k == "R" then cur := some { p with result := v }
         else throw s!"out field {k}"
   if let some p := cur then polls := polls ++ [p]
@@ -272,7 +278,7 @@ def oracleSched (evs : List Event) : Sched := fun h l =>
 
 def endpointOf (p : PollOut) (v : Version) : Endpoint :=
   match p.streams.find? (fun s => s.v == v) with
-  | some s => { connErr := s.connErr, pol := oraclePol s.events, sched := oracleSched s.events }
+  | some s => { connErr := s.connErr, pol := oraclePol s.events, sched := oracleSched s.events, listSend := s.listSend }
   | none => { connErr := some 999, pol := fun _ _ => mismatch, sched := fun _ l => l }
 
 /-- the model's conversation ended with an aborting response -/
